@@ -99,18 +99,26 @@ def _r10e(chk, repo) -> None:
             for w in walk_local(f):
                 if not (isinstance(w, ast.While) and isinstance(w.test, ast.BoolOp) and isinstance(w.test.op, ast.And)):
                     continue
+                cfg = cfg_of(f)
+
+                def rd(x):
+                    """A plain local read in the loop test stands for its single defining expression."""
+                    y = sole_expr_origin(cfg, x, w) if isinstance(x, ast.Name) else x
+                    return y if y is not None else x
+
                 for c in w.test.values:
                     if not (isinstance(c, ast.Compare) and len(c.ops) == 1):
                         continue
                     bound_e = seq = None
                     l, r = c.left, c.comparators[0]
-                    if isinstance(c.ops[0], ast.Lt) and isinstance(r, ast.Call) and call_name(r) == "len" and r.args:
-                        bound_e, seq = l, r.args[0]
-                    elif isinstance(c.ops[0], ast.Gt) and isinstance(l, ast.Call) and call_name(l) == "len" and l.args:
-                        bound_e, seq = r, l.args[0]
+                    rl, rr = rd(l), rd(r)
+                    if isinstance(c.ops[0], ast.Lt) and isinstance(rr, ast.Call) and call_name(rr) == "len" and rr.args:
+                        bound_e, seq = l, rd(rr.args[0])
+                    elif isinstance(c.ops[0], ast.Gt) and isinstance(rl, ast.Call) and call_name(rl) == "len" and rl.args:
+                        bound_e, seq = r, rd(rl.args[0])
                     if bound_e is None:
                         continue
-                    subs = [x.slice for v in w.test.values for x in ast.walk(v) if isinstance(x, ast.Subscript) and norm(x.value) == norm(seq)]
+                    subs = [x.slice for v in w.test.values for x in ast.walk(v) if isinstance(x, ast.Subscript) and norm(rd(x.value)) == norm(seq)]
                     if not subs:
                         continue
                     n += 1
@@ -589,18 +597,243 @@ def _r10d(chk, repo) -> None:
 
 from ..selftest import Variant  # noqa: E402
 
+TBASE = "src/sqlfluff/core/templaters/base.py"
+
+_KEEP_BLOCK_OLD = (
+    "        local_raw_slices = templated_file.raw_slices_spanning_source_slice(\n"
+    "            patch.source_slice\n"
+    "        )\n"
+    "        local_type_list = [slc.slice_type for slc in local_raw_slices]\n"
+    "\n"
+    "        # Deal with the easy cases of 1) New code at end 2) only literals\n"
+    "        if not local_type_list or set(local_type_list) == {\"literal\"}:\n"
+    "            linter_logger.info(\n"
+    "                \"      * Keeping patch on new or literal-only section.\",\n"
+    "            )\n"
+    "            filtered_source_patches.append(patch)\n"
+    "            dedupe_buffer.add(dedupe_tuple)\n"
+    "        # Handle the easy case of an explicit source fix\n"
+    "        elif patch.patch_category == \"source\":\n"
+    "            linter_logger.info(\n"
+    "                \"      * Keeping explicit source fix patch.\",\n"
+    "            )\n"
+    "            filtered_source_patches.append(patch)\n"
+    "            dedupe_buffer.add(dedupe_tuple)\n"
+    "        # Is it a zero length patch.\n"
+    "        elif (\n"
+    "            patch.source_slice.start == patch.source_slice.stop\n"
+    "            and patch.source_slice.start == local_raw_slices[0].source_idx\n"
+    "        ):\n"
+)
+
 VARIANTS = [
+    # behaviour-preserving refactors: must stay quiet
     Variant(
-        "raw-slice-span-stops-before-last-slice", "src/sqlfluff/core/templaters/base.py",
-        "            raw_slice_idx + slice_span < len(self.raw_sliced)\n",
-        "            raw_slice_idx + slice_span + 1 < len(self.raw_sliced)\n",
-        "R10e", "raw_slices_spanning_source_slice", "seeded C10-2: a tag that is the last raw slice of the file is overwritten by a fix",
-    ),
-    Variant(
-        "quiet-raw-slice-span-len-hoisted", "src/sqlfluff/core/templaters/base.py",
+        "quiet-raw-slice-span-len-hoisted", TBASE,
         "        slice_span = 1\n        while (\n            raw_slice_idx + slice_span < len(self.raw_sliced)\n",
         "        slice_span = 1\n        while (\n            len(self.raw_sliced) > raw_slice_idx + slice_span\n",
         "QUIET", None, "bound spelled with the length on the left",
+    ),
+    Variant(
+        "quiet-scan-length-and-list-in-locals", TBASE,
+        "        raw_slice_idx = 0\n"
+        "        # Move the raw pointer forward to the start of this patch\n"
+        "        while (\n"
+        "            raw_slice_idx + 1 < len(self.raw_sliced)\n"
+        "            and self.raw_sliced[raw_slice_idx + 1].source_idx <= source_slice.start\n"
+        "        ):\n"
+        "            raw_slice_idx += 1\n"
+        "        # Find slice index of the end of this patch.\n"
+        "        slice_span = 1\n"
+        "        while (\n"
+        "            raw_slice_idx + slice_span < len(self.raw_sliced)\n"
+        "            and self.raw_sliced[raw_slice_idx + slice_span].source_idx\n",
+        "        raw_slice_idx = 0\n"
+        "        n_raw = len(self.raw_sliced)\n"
+        "        raw = self.raw_sliced\n"
+        "        # Move the raw pointer forward to the start of this patch\n"
+        "        while (\n"
+        "            raw_slice_idx + 1 < n_raw\n"
+        "            and raw[raw_slice_idx + 1].source_idx <= source_slice.start\n"
+        "        ):\n"
+        "            raw_slice_idx += 1\n"
+        "        # Find slice index of the end of this patch.\n"
+        "        slice_span = 1\n"
+        "        while (\n"
+        "            raw_slice_idx + slice_span < n_raw\n"
+        "            and self.raw_sliced[raw_slice_idx + slice_span].source_idx\n",
+        "QUIET", None, "R10e: the list length (and, in one scan, the list) read through a local set before the scans",
+    ),
+    Variant(
+        "quiet-discard-gate-in-boolean-local", BASE,
+        "        if not self.template_safe_fixes:\n            self.discard_unsafe_fixes(res, templated_file)\n",
+        "        already_safe = self.template_safe_fixes\n        if not already_safe:\n            self.discard_unsafe_fixes(lint_result=res, templated_file=templated_file)\n",
+        "QUIET", None, "R10a: the only accepted skip test hoisted into a local; discard called with keyword arguments",
+    ),
+    Variant(
+        "quiet-discard-gate-if-else", BASE,
+        "        if not self.template_safe_fixes:\n            self.discard_unsafe_fixes(res, templated_file)\n",
+        "        if self.template_safe_fixes:\n            pass\n        else:\n            BaseRule.discard_unsafe_fixes(res, templated_file)\n",
+        "QUIET", None, "R10a: gate spelled positively with the discard in the else arm; static method called through the class",
+    ),
+    Variant(
+        "quiet-fix-handover-through-local", BASE,
+        "        new_fixes.extend(res.fixes)\n",
+        "        surviving_fixes = res.fixes\n        new_fixes.extend(surviving_fixes)\n",
+        "QUIET", None, "R10a: the result's fixes handed on through a local",
+    ),
+    Variant(
+        "quiet-fix-handover-as-loop", BASE,
+        "        new_fixes.extend(res.fixes)\n",
+        "        for kept_fix in res.fixes:\n            new_fixes.append(kept_fix)\n",
+        "QUIET", None, "R10a: extend spelled as an append loop",
+    ),
+    Variant(
+        "quiet-discard-conflict-test-through-locals", BASE,
+        "        # Check for fixes that touch templated code.\n        for fix in lint_result.fixes:\n            if fix.has_template_conflicts(templated_file):\n",
+        "        # Check for fixes that touch templated code.\n        candidate_fixes = lint_result.fixes\n        for fix in candidate_fixes:\n"
+        "            conflicts = fix.has_template_conflicts(templated_file)\n            if conflicts:\n",
+        "QUIET", None, "R10a: iterated list and the conflict test each read through a local",
+    ),
+    Variant(
+        "quiet-discard-conflict-test-as-any", BASE,
+        "        # Check for fixes that touch templated code.\n"
+        "        for fix in lint_result.fixes:\n"
+        "            if fix.has_template_conflicts(templated_file):\n"
+        "                linter_logger.info(\n"
+        "                    \"      * Discarding fixes that touch templated code: %s\",\n"
+        "                    lint_result.fixes,\n"
+        "                )\n"
+        "                lint_result.fixes = []\n"
+        "                return\n",
+        "        # Check for fixes that touch templated code.\n"
+        "        if any(fix.has_template_conflicts(templated_file) for fix in lint_result.fixes):\n"
+        "            linter_logger.info(\n"
+        "                \"      * Discarding fixes that touch templated code: %s\",\n"
+        "                lint_result.fixes,\n"
+        "            )\n"
+        "            lint_result.fixes = []\n"
+        "            return\n",
+        "QUIET", None, "R10a: the conflict loop spelled as any(...)",
+    ),
+    Variant(
+        "quiet-discard-early-exits-split", BASE,
+        "        if not lint_result.fixes or not templated_file:\n            return\n",
+        "        if not lint_result.fixes:\n            return\n        if not templated_file:\n            return\n",
+        "QUIET", None, "R10a: `or` of the two accepted early exits spelled as two ifs",
+    ),
+    Variant(
+        "quiet-discard-early-exit-test-hoisted", BASE,
+        "        if not lint_result.fixes or not templated_file:\n            return\n",
+        "        nothing_to_check = not lint_result.fixes or not templated_file\n        if nothing_to_check:\n            return\n",
+        "QUIET", None, "R10a: early-exit test hoisted into a boolean local",
+    ),
+    Variant(
+        "quiet-crawl-out-lists-by-keyword", BASE,
+        "                self._process_lint_result(\n                    res, templated_file, ignore_mask, new_lerrs, new_fixes, tree\n                )\n",
+        "                self._process_lint_result(\n                    res, templated_file, ignore_mask, new_lerrs=new_lerrs, new_fixes=new_fixes, root=tree\n                )\n",
+        "QUIET", None, "R10a: crawl passes the out-lists by keyword",
+    ),
+    Variant(
+        "quiet-sourcefix-imported-from-package", "src/sqlfluff/utils/reflow/reindent.py",
+        "from sqlfluff.core.parser.segments import SourceFix\n",
+        "from sqlfluff.core.parser import SourceFix\n",
+        "QUIET", None, "R10b: same class imported through the parent package's re-export",
+    ),
+    Variant(
+        "quiet-sourcefix-local-annotated", "src/sqlfluff/rules/layout/LT12.py",
+        "            source_fix = SourceFix(\n",
+        "            source_fix: SourceFix = SourceFix(\n",
+        "QUIET", None, "R10b: the class named in a local's annotation is not a value use",
+    ),
+    Variant(
+        "quiet-keep-test-in-boolean-local", PATCH,
+        "        if not local_type_list or set(local_type_list) == {\"literal\"}:\n",
+        "        literal_only = not local_type_list or set(local_type_list) == {\"literal\"}\n        if literal_only:\n",
+        "QUIET", None, "R10c: keep test (A) hoisted into a boolean local",
+    ),
+    Variant(
+        "quiet-keep-test-if-elif", PATCH,
+        "        if not local_type_list or set(local_type_list) == {\"literal\"}:\n"
+        "            linter_logger.info(\n"
+        "                \"      * Keeping patch on new or literal-only section.\",\n"
+        "            )\n"
+        "            filtered_source_patches.append(patch)\n"
+        "            dedupe_buffer.add(dedupe_tuple)\n",
+        "        if not local_type_list:\n"
+        "            linter_logger.info(\n"
+        "                \"      * Keeping patch on new or literal-only section.\",\n"
+        "            )\n"
+        "            filtered_source_patches.append(patch)\n"
+        "            dedupe_buffer.add(dedupe_tuple)\n"
+        "        elif {\"literal\"} == set(local_type_list):\n"
+        "            linter_logger.info(\n"
+        "                \"      * Keeping patch on new or literal-only section.\",\n"
+        "            )\n"
+        "            filtered_source_patches.append(patch)\n"
+        "            dedupe_buffer.add(dedupe_tuple)\n",
+        "QUIET", None, "R10c: `or` spelled as if/elif with the set comparison written the other way round",
+    ),
+    Variant(
+        "quiet-zero-length-chained-comparison", PATCH,
+        "            patch.source_slice.start == patch.source_slice.stop\n            and patch.source_slice.start == local_raw_slices[0].source_idx\n",
+        "            patch.source_slice.start\n            == patch.source_slice.stop\n            == local_raw_slices[0].source_idx\n",
+        "QUIET", None, "R10c: a == b and a == c spelled as the chain a == b == c (ints: same truth value, same evaluation order)",
+    ),
+    Variant(
+        "quiet-patch-fields-through-locals", PATCH,
+        _KEEP_BLOCK_OLD,
+        _KEEP_BLOCK_OLD
+        .replace("        local_raw_slices = templated_file.raw_slices_spanning_source_slice(\n            patch.source_slice\n        )\n",
+                 "        src_slice = patch.source_slice\n        category = patch.patch_category\n"
+                 "        local_raw_slices = templated_file.raw_slices_spanning_source_slice(\n            src_slice\n        )\n")
+        .replace("        elif patch.patch_category == \"source\":\n", "        elif category == \"source\":\n")
+        .replace("            patch.source_slice.start == patch.source_slice.stop\n            and patch.source_slice.start == local_raw_slices[0].source_idx\n",
+                 "            src_slice.start == src_slice.stop\n            and local_raw_slices[0].source_idx == src_slice.start\n"),
+        "QUIET", None, "R10c: the patch's source slice and category read through locals",
+    ),
+    Variant(
+        "quiet-type-set-comprehension", PATCH,
+        "        local_type_list = [slc.slice_type for slc in local_raw_slices]\n"
+        "\n"
+        "        # Deal with the easy cases of 1) New code at end 2) only literals\n"
+        "        if not local_type_list or set(local_type_list) == {\"literal\"}:\n",
+        "        local_type_list = {raw_slice.slice_type for raw_slice in local_raw_slices}\n"
+        "\n"
+        "        # Deal with the easy cases of 1) New code at end 2) only literals\n"
+        "        if not local_type_list or local_type_list == {\"literal\"}:\n",
+        "QUIET", None, "R10c: the slice types collected directly as a set",
+    ),
+    Variant(
+        "quiet-patches-sorted-in-place", PATCH,
+        "    return sorted(filtered_source_patches, key=lambda x: x.source_slice.start)\n",
+        "    filtered_source_patches.sort(key=lambda x: x.source_slice.start)\n    return filtered_source_patches\n",
+        "QUIET", None, "R10c: in-place stable sort of the fresh local list instead of sorted()",
+    ),
+    Variant(
+        "quiet-templated-file-alias", LFILE,
+        "        source_only_slices = self.templated_file.source_only_slices()\n",
+        "        templated = self.templated_file\n        source_only_slices = templated.source_only_slices()\n",
+        "QUIET", None, "R10d: self.templated_file read through a local alias",
+    ),
+    Variant(
+        "quiet-slicer-source-through-local-and-keywords", LFILE,
+        "        slice_buff = self._slice_source_file_using_patches(\n"
+        "            filtered_source_patches, source_only_slices, self.templated_file.source_str\n"
+        "        )\n",
+        "        slice_buff = self._slice_source_file_using_patches(\n"
+        "            filtered_source_patches,\n"
+        "            raw_source_string=original_source,\n"
+        "            source_only_slices=source_only_slices,\n"
+        "        )\n",
+        "QUIET", None, "R10d: slicer arguments by keyword, the source string through the existing local",
+    ),
+    # breaking edits: must be reported
+    Variant(
+        "raw-slice-span-stops-before-last-slice", TBASE,
+        "            raw_slice_idx + slice_span < len(self.raw_sliced)\n",
+        "            raw_slice_idx + slice_span + 1 < len(self.raw_sliced)\n",
+        "R10e", "raw_slices_spanning_source_slice", "seeded C10-2: a tag that is the last raw slice of the file is overwritten by a fix",
     ),
     Variant(
         "discard-call-dropped", BASE,
